@@ -1,7 +1,7 @@
 #!/bin/bash
 # usage: tools/run_seeds.sh C02 C03 ...   (seeds under /tmp/seeds/<id>/<k>); confirmed ones are copied to /verif/seeded/<id>-<k>/
 for id in "$@"; do
-  for d in /tmp/seeds/$id/*/; do
+  for d in ${SEEDS_ROOT:-/tmp/seeds}/$id/*/; do
     k=$(basename $d)
     [ -f $d/patch.diff ] || continue
     res=$(/venv/bin/python /verif/tools/run_seed.py $d 2>/dev/null | tail -1)
@@ -12,7 +12,7 @@ print(d['property'], '$k', (d.get('title') or '')[:90])
 print('   confirmed',d.get('confirmed'),'| detected',d.get('detected'),'| with_input',d.get('with_input'),'|', d.get('tests_failed'), d.get('error') or '', '| demo', d.get('demo_clean'), d.get('demo_patched'))
 print('   ', [ (r[1], r[2]) if r[0]=='spec-failure-on-implementation' else (r[0], r[1]) for r in (d.get('replays') or [])][:4])
 if d.get('confirmed'):
-    dst='/verif/seeded/%s-%s'%(d['property'],'$k')
+    dst="/verif/seeded/%s-%s%s"%(d["property"],"${SEED_TAG:-}","$k")
     os.makedirs(dst, exist_ok=True)
     for f in ('patch.diff','demo.py','meta.json'):
         shutil.copy(os.path.join('$d',f), dst)
